@@ -2041,6 +2041,23 @@ impl Fs {
 
         // Overlay pending writes (need to check the content path)
         for op in &self.pending {
+            // A pending truncation discards everything at or beyond the new
+            // length: if the file grows again later, those bytes read as zeros.
+            if let PendingOp::SetLen {
+                path: p,
+                len: new_len,
+                ..
+            } = op
+            {
+                if p == &content_path || self.path_renamed_to(p, &content_path) {
+                    let read_end = offset + to_read as u64;
+                    if *new_len < read_end {
+                        let from = new_len.saturating_sub(offset) as usize;
+                        buf[from..to_read].fill(0);
+                    }
+                }
+                continue;
+            }
             if let PendingOp::Write {
                 path: p,
                 offset: write_off,
